@@ -21,13 +21,13 @@ PROPS = {
     "C05": dict(mc_q=["MC_guards_q"], mc_t=["MC_guards", "MC_plan_q"], wit=[("MC_guards_q", "W_RequestInPhase")]),
     "C06": dict(mc_q=["MC_guards_q", "MC_payload_q"], mc_t=["MC_guards", "MC_payload"], wit=[("MC_guards_q", "W_GuardSeesAccepted")]),
     "C07": dict(mc_q=["MC_payload_q"], mc_t=["MC_payload"], wit=[("MC_payload_q", "W_TaskPayloadPending")]),
-    "C08": dict(mc_q=["MC_plan_q"], mc_t=["MC_plan"], wit=[("MC_plan_q", "W_TaskFired"), ("MC_plan_q", "W_Origin0Ahead")]),
-    "C09": dict(mc_q=["MC_plan_q"], mc_t=["MC_plan"], wit=[("MC_plan_q", "W_PlanFailed"), ("MC_plan_q", "W_PlanSucceeded")]),
+    "C08": dict(mc_q=["MC_plan_q", "MC_planman"], mc_t=["MC_plan", "MC_planman"], wit=[("MC_plan_q", "W_TaskFired"), ("MC_plan_q", "W_Origin0Ahead")]),
+    "C09": dict(mc_q=["MC_plan_q", "MC_planman"], mc_t=["MC_plan", "MC_planman"], wit=[("MC_plan_q", "W_PlanFailed"), ("MC_plan_q", "W_PlanSucceeded")]),
     "C10": dict(mc_q=["MC_plan_q"], mc_t=["MC_plan"], wit=[("MC_plan_q", "W_PlanFull")]),
     "C13": dict(mc_q=[], mc_t=[], wit=[], pool=False),
     "C20": dict(mc_q=[], mc_t=[], wit=[], pool=False),
-    "C11": dict(mc_q=["MC_guards_q", "MC_serial"], mc_t=["MC_guards", "MC_serial"], wit=[("MC_serial", "W_Replayed")]),
-    "C12": dict(mc_q=["MC_serial"], mc_t=["MC_serial"], wit=[("MC_serial", "W_LoadDeactivates")]),
+    "C11": dict(mc_q=["MC_guards_q", "MC_serial"], mc_t=["MC_guards", "MC_serial", "MC_serial3"], wit=[("MC_serial", "W_Replayed")]),
+    "C12": dict(mc_q=["MC_serial", "MC_serial3"], mc_t=["MC_serial", "MC_serial3"], wit=[("MC_serial", "W_LoadDeactivates")]),
     "C14": dict(mc_q=["MC_guards_q"], mc_t=["MC_guards"], wit=[]),
     "C19": dict(mc_q=["MC_guards_q"], mc_t=["MC_guards"], wit=[], pool=False),
     "C15": dict(mc_q=["MC_inj"], mc_t=["MC_inj"], wit=[("MC_inj", "W_InjectedExit")]),
